@@ -2,7 +2,7 @@
    state it may write.  One line per instruction family; a field not listed is never
    changed by the instruction, whatever the operands. *)
 From Coq Require Import ZArith String List Bool.
-From PushModel Require Import Base.Sx Base.Machine Base.F32 Model.Item Model.GraphT Model.State.
+From PushModel Require Import Base.Sx Base.Machine Base.F32 Model.Item Model.GraphT Model.State Model.InstrBase.
 Import ListNotations.
 Open Scope string_scope.
 
@@ -68,8 +68,364 @@ Definition fp_core : list (string * mask) :=
   [ ("INDEX.CURRENT", W [FInt]); ("INDEX.DEFINE", W [FInt; FIndex]); ("INDEX.DESTINATION", W [FIndex]);
     ("INDEX.FLUSH", W [FIndex]); ("INDEX.INCREASE", W [FIndex]); ("INDEX.POP", W [FIndex]) ].
 
+(* ---- the three vector families (vector.rs); the vector stacks have no ROT ---- *)
+Definition fp_vec_family (pre : string) (f : fld) : list (string * mask) :=
+  [ (pre ++ ".DUP", W [f]); (pre ++ ".POP", W [f]); (pre ++ ".SWAP", W [f]);
+    (pre ++ ".FLUSH", W [f]); (pre ++ ".YANK", W [FInt; f]); (pre ++ ".YANKDUP", W [FInt; f]);
+    (pre ++ ".SHOVE", W [FInt; f]) ].
+
+Definition fp_bvec : list (string * mask) :=
+  fp_vec_family "BOOLVECTOR" FBvec ++
+  [ ("BOOLVECTOR.STACKDEPTH", W [FInt]); ("BOOLVECTOR.DEFINE", W [FName; FBvec; FBind]);
+    ("BOOLVECTOR.GET", W [FInt; FBool]); ("BOOLVECTOR.SET", W [FInt; FBool; FBvec]);
+    ("BOOLVECTOR.AND", W [FBvec; FInt]); ("BOOLVECTOR.OR", W [FBvec; FInt]); ("BOOLVECTOR.NOT", W [FBvec; FInt]);
+    ("BOOLVECTOR.COUNT", W [FInt]); ("BOOLVECTOR.EQUAL", W [FBvec; FBool]); ("BOOLVECTOR.ID", W [FInt]);
+    ("BOOLVECTOR.LENGTH", W [FInt]); ("BOOLVECTOR.ONES", W [FInt; FBvec]); ("BOOLVECTOR.ZEROS", W [FInt; FBvec]);
+    ("BOOLVECTOR.ROTATE", W [FBool; FBvec]); ("BOOLVECTOR.SORT*ASC", W [FBvec]); ("BOOLVECTOR.SORT*DESC", W [FBvec]) ].
+
+Definition fp_ivec : list (string * mask) :=
+  fp_vec_family "INTVECTOR" FIvec ++
+  [ ("INTVECTOR.STACKDEPTH", W [FInt]); ("INTVECTOR.DEFINE", W [FName; FIvec; FBind]);
+    ("INTVECTOR.APPEND", W [FInt; FIvec]); ("INTVECTOR.BOOLINDEX", W [FBvec; FIvec]);
+    ("INTVECTOR.GET", W [FInt]); ("INTVECTOR.SET", W [FInt; FIvec]);
+    ("INTVECTOR.+", W [FIvec; FInt]); ("INTVECTOR.-", W [FIvec; FInt]);
+    ("INTVECTOR.CONTAINS", W [FInt; FIvec; FBool]); ("INTVECTOR.EMPTY", W [FIvec]);
+    ("INTVECTOR.EQUAL", W [FIvec; FBool]); ("INTVECTOR.FROMINT", W [FInt; FIvec]); ("INTVECTOR.ID", W [FInt]);
+    ("INTVECTOR.ONES", W [FInt; FIvec]); ("INTVECTOR.ZEROS", W [FInt; FIvec]); ("INTVECTOR.MEAN", W [FFloat]);
+    ("INTVECTOR.LENGTH", W [FInt]); ("INTVECTOR.LOOP", W [FIvec; FExec; FInt]); ("INTVECTOR.REMOVE", W [FInt; FIvec]);
+    ("INTVECTOR.ROTATE", W [FInt; FIvec]); ("INTVECTOR.SORT*ASC", W [FIvec]); ("INTVECTOR.SORT*DESC", W [FIvec]);
+    ("INTVECTOR.SET*INSERT", W [FInt; FIvec]); ("INTVECTOR.SUM", W [FInt]) ].
+
+Definition fp_fvec : list (string * mask) :=
+  fp_vec_family "FLOATVECTOR" FFvec ++
+  [ ("FLOATVECTOR.STACKDEPTH", W [FInt]); ("FLOATVECTOR.DEFINE", W [FName; FFvec; FBind]);
+    ("FLOATVECTOR.GET", W [FInt; FFloat]); ("FLOATVECTOR.SET", W [FInt; FFloat; FFvec]);
+    ("FLOATVECTOR.+", W [FFvec; FInt]); ("FLOATVECTOR.-", W [FFvec; FInt]);
+    ("FLOATVECTOR.*", W [FFvec; FInt]); ("FLOATVECTOR./", W [FFvec; FInt]);
+    ("FLOATVECTOR.*SCALAR", W [FFloat; FFvec]); ("FLOATVECTOR.APPEND", W [FFloat; FFvec]);
+    ("FLOATVECTOR.EMPTY", W [FFvec]); ("FLOATVECTOR.EQUAL", W [FFvec; FBool]); ("FLOATVECTOR.ID", W [FInt]);
+    ("FLOATVECTOR.LENGTH", W [FInt]); ("FLOATVECTOR.MEAN", W [FFloat]);
+    ("FLOATVECTOR.ONES", W [FInt; FFvec]); ("FLOATVECTOR.ZEROS", W [FInt; FFvec]);
+    ("FLOATVECTOR.ROTATE", W [FFloat; FFvec]); ("FLOATVECTOR.SINE", W [FFloat; FInt; FFvec]);
+    ("FLOATVECTOR.SORT*ASC", W [FFvec]); ("FLOATVECTOR.SORT*DESC", W [FFvec]); ("FLOATVECTOR.SUM", W [FFloat]) ].
+
+Definition fp_vec : list (string * mask) := fp_bvec ++ fp_ivec ++ fp_fvec.
+
+(* ---- LIST (list.rs).  A record is built from the stacks designated by the ids of the top
+   INTVECTOR: any of the nine typed stacks may lose an item (INDEX / INPUT / OUTPUT ids
+   designate nothing). ---- *)
+Definition designated : list fld := [FBool; FBvec; FCode; FExec; FFloat; FFvec; FInt; FIvec; FName].
+Definition fp_list : list (string * mask) :=
+  [ ("LIST.ADD", W designated);                  (* id vector and designated items popped, record pushed on CODE *)
+    ("LIST.REMOVE", W [FInt; FCode]); ("LIST.GET", W [FInt; FExec]);
+    ("LIST.SET", W designated);                  (* position from INTEGER, then as LIST.ADD, record replaced on CODE *)
+    ("LIST.BVAL", W [FInt; FBool]); ("LIST.IVAL", W [FInt]); ("LIST.FVAL", W [FInt; FFloat]) ].
+
+(* ---- INPUT / OUTPUT (io.rs) ---- *)
+Definition fp_io : list (string * mask) :=
+  [ ("INPUT.AVAILABLE", W [FBool]); ("INPUT.GET", W [FInt; FBool]); ("INPUT.NEXT", W [FInput]);
+    (* the doc comment of INPUT.READ names the BOOLVECTOR stack only; the body also pushes the
+       header on INTVECTOR (finding C10/input-read-header, documentation) *)
+    ("INPUT.READ", W [FBvec; FIvec]);
+    ("INPUT.STACKDEPTH", W [FInt]);
+    ("OUTPUT.FLUSH", W [FOutput]); ("OUTPUT.WRITE", W [FBvec; FIvec; FOutput]); ("OUTPUT.STACKDEPTH", W [FInt]) ].
+
+(* ---- GRAPH (graph.rs) ---- *)
+Definition fp_graph : list (string * mask) :=
+  [ ("GRAPH.ADD", W [FGraph]); ("GRAPH.DUP", W [FGraph]); ("GRAPH.NODE*ADD", W [FInt; FGraph]);
+    ("GRAPH.NODE*GETSTATE", W [FInt]); ("GRAPH.NODE*HISTORY", W [FInt]); ("GRAPH.NODE*SETSTATE", W [FInt; FGraph]);
+    ("GRAPH.NODE*NEIGHBORS", W [FIvec; FInt]); ("GRAPH.NODE*PREDECESSORS", W [FIvec; FInt]);
+    ("GRAPH.NODE*SUCCESSORS", W [FIvec; FInt]);
+    ("GRAPH.NODE*STATESWITCH", W [FIvec; FBvec; FInt; FGraph]);
+    ("GRAPH.NODES", W [FIvec]); ("GRAPH.NODES*HISTORY", W [FInt; FIvec]); ("GRAPH.STACKDEPTH", W [FInt]);
+    ("GRAPH.PRINT", W [FName]); ("GRAPH.PRINT*DIFF", W [FName]);
+    ("GRAPH.EDGE*ADD", W [FFloat; FInt; FGraph]); ("GRAPH.EDGE*HISTORY", W [FInt; FFloat]);
+    ("GRAPH.EDGE*GETWEIGHT", W [FInt; FFloat]); ("GRAPH.EDGE*SETWEIGHT", W [FFloat; FInt; FGraph]) ].
+
+(* ---- LIST.NEIGHBOR* (list.rs): size, index, dimensions (and the position for *VALS) from INTEGER,
+   the radius from FLOAT; one vector pushed ---- *)
+Definition fp_nbr : list (string * mask) :=
+  [ ("LIST.NEIGHBOR*IDS", W [FInt; FFloat; FIvec]); ("LIST.NEIGHBOR*BVALS", W [FInt; FFloat; FBvec]);
+    ("LIST.NEIGHBOR*IVALS", W [FInt; FFloat; FIvec]); ("LIST.NEIGHBOR*FVALS", W [FInt; FFloat; FFvec]) ].
+
+(* ---- the instructions that read the random number generator (the generator is outside the state) ---- *)
+Definition fp_rand : list (string * mask) :=
+  [ ("BOOLEAN.RAND", W [FBool]); ("INTEGER.RAND", W [FInt]); ("FLOAT.RAND", W [FFloat]);
+    ("CODE.RAND", W [FInt; FCode]); ("NAME.RAND", W [FName]); ("NAME.RANDBOUNDNAME", W [FName]);
+    ("BOOLVECTOR.RAND", W [FInt; FFloat; FBvec]); ("INTVECTOR.RAND", W [FInt; FIvec]);
+    ("FLOATVECTOR.RAND", W [FInt; FFloat; FFvec]) ].
+
+(* every registered family, in the order of Model/RegistryAll.v; a new family is one more `++`
+   (and one more lemma in FrameProofs2.all_framed) *)
+Definition fp_base : list (string * mask) :=
+  fp_core ++ fp_bvec ++ fp_ivec ++ fp_fvec ++ fp_list ++ fp_io ++ fp_graph ++ fp_nbr.
+Definition fp_all : list (string * mask) := fp_base ++ fp_rand.
+
 Fixpoint fp_lookup (t : list (string * mask)) (n : string) : option mask :=
   match t with
   | [] => None
   | (k, m) :: r => if String.eqb n k then Some m else fp_lookup r n
   end.
+
+(* ---- one interpreter step: EXEC plus the footprint of the item it executes ---- *)
+Definition lit_fld (v : lit) : fld :=
+  match v with
+  | LBool _ => FBool | LInt _ => FInt | LIndex _ _ => FIndex | LFloat _ => FFloat
+  | LBoolVec _ => FBvec | LIntVec _ => FIvec | LFloatVec _ => FFvec
+  end.
+Inductive step_fp (fp : list (string * mask)) : item -> mask -> Prop :=
+| sf_lit v : step_fp fp (ILit v) (W [lit_fld v])                 (* a literal goes to its typed stack *)
+| sf_name n : step_fp fp (IName n) (W [FName; FQuote])           (* NAME stack (or EXEC when bound); the quote flag is cleared *)
+| sf_list l : step_fp fp (IList l) (W [])                        (* unpacked onto EXEC *)
+| sf_instr k m : fp_lookup fp k = Some m -> step_fp fp (IInstr (s2l k)) m
+| sf_unknown n : (forall k, n = s2l k -> fp_lookup fp k = None) -> step_fp fp (IInstr n) (W []).
+
+(* ================================================================================== *)
+(* C10, second half: an instruction that lacks an operand only pops.                   *)
+
+(* [l'] is [l] with some top items removed *)
+Definition suffix {A} (l' l : list A) : Prop := exists k : nat, l' = skipn k l.
+
+(* nothing pushed, nothing changed: every typed stack lost at most some top items; INDEX stack,
+   queues, graphs, bindings, configuration and flags are equal *)
+Definition only_pops (s s' : state) : Prop :=
+  suffix (st_bool s') (st_bool s) /\ suffix (st_code s') (st_code s) /\ suffix (st_exec s') (st_exec s) /\
+  suffix (st_float s') (st_float s) /\ suffix (st_int s') (st_int s) /\ suffix (st_name s') (st_name s) /\
+  suffix (st_bvec s') (st_bvec s) /\ suffix (st_fvec s') (st_fvec s) /\ suffix (st_ivec s') (st_ivec s) /\
+  st_index s' = st_index s /\ st_input s' = st_input s /\ st_output s' = st_output s /\
+  st_graph s' = st_graph s /\ st_bind s' = st_bind s /\ st_cfg s' = st_cfg s /\
+  st_quote s' = st_quote s /\ st_send s' = st_send s.
+
+(* number of items a field holds (flags and configuration hold none) *)
+Definition depth (f : fld) (s : state) : nat :=
+  match f with
+  | FBool => length (st_bool s) | FCode => length (st_code s) | FExec => length (st_exec s)
+  | FFloat => length (st_float s) | FIndex => length (st_index s) | FInt => length (st_int s)
+  | FName => length (st_name s) | FBvec => length (st_bvec s) | FFvec => length (st_fvec s)
+  | FIvec => length (st_ivec s) | FInput => length (st_input s) | FOutput => length (st_output s)
+  | FGraph => length (st_graph s) | FBind => length (st_bind s) | FCfg | FQuote | FSend => O
+  end.
+
+Local Open Scope nat_scope.
+(* operand requirement: how many items of which stack the instruction needs in order to apply *)
+Definition need := list (fld * nat).
+Definition lacking_in (nd : need) (s : state) : bool :=
+  existsb (fun e => Nat.ltb (depth (fst e) s) (snd e)) nd.
+
+(* YANK / YANKDUP / SHOVE: the index and at least one item to act on *)
+Definition nd_family (pre : string) (f : fld) (ny : need) : list (string * need) :=
+  [ (pre ++ ".DUP", [(f, 1)]); (pre ++ ".POP", [(f, 1)]); (pre ++ ".SWAP", [(f, 2)]); (pre ++ ".ROT", [(f, 3)]);
+    (pre ++ ".FLUSH", []); (pre ++ ".YANK", ny); (pre ++ ".YANKDUP", ny); (pre ++ ".SHOVE", ny) ].
+Definition nd_vec_family (pre : string) (f : fld) : list (string * need) :=
+  [ (pre ++ ".DUP", [(f, 1)]); (pre ++ ".POP", [(f, 1)]); (pre ++ ".SWAP", [(f, 2)]);
+    (pre ++ ".FLUSH", []); (pre ++ ".YANK", [(FInt, 1); (f, 1)]); (pre ++ ".YANKDUP", [(FInt, 1); (f, 1)]);
+    (pre ++ ".SHOVE", [(FInt, 1); (f, 1)]) ].
+
+Definition nd_core : list (string * need) :=
+  [ ("NOOP", []) ] ++
+  nd_family "BOOLEAN" FBool [(FInt, 1); (FBool, 1)] ++
+  [ ("BOOLEAN.STACKDEPTH", []); ("BOOLEAN.DEFINE", [(FName, 1); (FBool, 1)]);
+    ("BOOLEAN.=", [(FBool, 2)]); ("BOOLEAN.AND", [(FBool, 2)]); ("BOOLEAN.OR", [(FBool, 2)]); ("BOOLEAN.NOT", [(FBool, 1)]);
+    ("BOOLEAN.FROMFLOAT", [(FFloat, 1)]); ("BOOLEAN.FROMINTEGER", [(FInt, 1)]); ("BOOLEAN.ID", []) ] ++
+  nd_family "INTEGER" FInt [(FInt, 2)] ++
+  [ ("INTEGER.STACKDEPTH", []); ("INTEGER.DEFINE", [(FName, 1); (FInt, 1)]);
+    ("INTEGER.%", [(FInt, 2)]); ("INTEGER.*", [(FInt, 2)]); ("INTEGER.+", [(FInt, 2)]); ("INTEGER.-", [(FInt, 2)]);
+    ("INTEGER./", [(FInt, 2)]); ("INTEGER.<", [(FInt, 2)]); ("INTEGER.=", [(FInt, 2)]);
+    ("INTEGER.>", [(FInt, 2)]); ("INTEGER.ABS", [(FInt, 1)]); ("INTEGER.DDUP", [(FInt, 2)]);
+    ("INTEGER.FROMBOOLEAN", [(FBool, 1)]); ("INTEGER.FROMFLOAT", [(FFloat, 1)]); ("INTEGER.ID", []);
+    ("INTEGER.MAX", [(FInt, 2)]); ("INTEGER.MIN", [(FInt, 2)]) ] ++
+  nd_family "FLOAT" FFloat [(FInt, 1); (FFloat, 1)] ++
+  [ ("FLOAT.STACKDEPTH", []); ("FLOAT.DEFINE", [(FName, 1); (FFloat, 1)]);
+    ("FLOAT.%", [(FFloat, 2)]); ("FLOAT.*", [(FFloat, 2)]); ("FLOAT.+", [(FFloat, 2)]); ("FLOAT.-", [(FFloat, 2)]);
+    ("FLOAT./", [(FFloat, 2)]); ("FLOAT.<", [(FFloat, 2)]); ("FLOAT.=", [(FFloat, 2)]);
+    ("FLOAT.>", [(FFloat, 2)]); ("FLOAT.COS", [(FFloat, 1)]); ("FLOAT.EXP", [(FFloat, 1)]);
+    ("FLOAT.FROMBOOLEAN", [(FBool, 1)]); ("FLOAT.FROMINTEGER", [(FInt, 1)]); ("FLOAT.ID", []);
+    ("FLOAT.MAX", [(FFloat, 2)]); ("FLOAT.MIN", [(FFloat, 2)]); ("FLOAT.SIN", [(FFloat, 1)]); ("FLOAT.TAN", [(FFloat, 1)]) ] ++
+  nd_family "NAME" FName [(FInt, 1); (FName, 1)] ++
+  [ ("NAME.STACKDEPTH", []); ("NAME.=", [(FName, 2)]); ("NAME.CAT", [(FName, 2)]); ("NAME.ID", []);
+    ("NAME.QUOTE", []); ("NAME.SEND", []) ] ++
+  nd_family "CODE" FCode [(FInt, 1); (FCode, 1)] ++
+  [ ("CODE.STACKDEPTH", []); ("CODE.DEFINE", [(FName, 1); (FCode, 1)]);
+    ("CODE.=", [(FCode, 2)]); ("CODE.APPEND", [(FCode, 2)]); ("CODE.ATOM", [(FCode, 1)]); ("CODE.CAR", [(FCode, 1)]);
+    ("CODE.CDR", [(FCode, 1)]); ("CODE.CONS", [(FCode, 2)]); ("CODE.CONTAINER", [(FCode, 2)]); ("CODE.CONTAINS", [(FCode, 2)]);
+    ("CODE.DEFINITION", [(FName, 1)]); ("CODE.DISCREPANCY", [(FCode, 2)]); ("CODE.DO", [(FCode, 1)]);
+    ("CODE.DO*", [(FCode, 1)]); ("CODE.LOOP", [(FCode, 1); (FIndex, 1)]); ("CODE.EXTRACT", [(FInt, 1); (FCode, 1)]);
+    ("CODE.FROMBOOLEAN", [(FBool, 1)]); ("CODE.FROMFLOAT", [(FFloat, 1)]);
+    ("CODE.FROMINTEGER", [(FInt, 1)]); ("CODE.FROMNAME", [(FName, 1)]); ("CODE.ID", []);
+    ("CODE.IF", [(FCode, 2); (FBool, 1)]); ("CODE.INSERT", [(FInt, 1); (FCode, 2)]); ("CODE.LENGTH", [(FCode, 1)]);
+    ("CODE.LIST", [(FCode, 2)]); ("CODE.MEMBER", [(FCode, 2)]); ("CODE.NOOP", []); ("CODE.NTH", [(FInt, 1); (FCode, 1)]);
+    ("CODE.NULL", [(FCode, 1)]); ("CODE.POSITION", [(FCode, 2)]); ("CODE.PRINT", [(FCode, 1)]);
+    ("CODE.QUOTE", [(FExec, 1)]); ("CODE.SIZE", [(FCode, 1)]); ("CODE.SUBST", [(FCode, 3)]) ] ++
+  nd_family "EXEC" FExec [(FInt, 1); (FExec, 1)] ++
+  [ ("EXEC.STACKDEPTH", []); ("EXEC.DEFINE", [(FName, 1); (FExec, 1)]);
+    ("EXEC.=", [(FExec, 2)]);
+    ("EXEC.CMD", [(FInt, 1)]);         (* the number of NAME operands is the INTEGER's value: a guard, not a fixed need *)
+    ("EXEC.LOOP", [(FExec, 1); (FIndex, 1)]);
+    ("EXEC.ID", []); ("EXEC.IF", [(FExec, 2); (FBool, 1)]); ("EXEC.K", [(FExec, 2)]); ("EXEC.S", [(FExec, 3)]);
+    ("EXEC.Y", [(FExec, 1)]) ] ++
+  [ ("INDEX.CURRENT", [(FIndex, 1)]); ("INDEX.DEFINE", [(FInt, 1)]); ("INDEX.DESTINATION", [(FIndex, 1)]);
+    ("INDEX.FLUSH", []); ("INDEX.INCREASE", [(FIndex, 1)]); ("INDEX.POP", [(FIndex, 1)]) ].
+
+Definition nd_bvec : list (string * need) :=
+  nd_vec_family "BOOLVECTOR" FBvec ++
+  [ ("BOOLVECTOR.STACKDEPTH", []); ("BOOLVECTOR.DEFINE", [(FName, 1); (FBvec, 1)]);
+    ("BOOLVECTOR.GET", [(FInt, 1); (FBvec, 1)]); ("BOOLVECTOR.SET", [(FInt, 1); (FBool, 1); (FBvec, 1)]);
+    ("BOOLVECTOR.AND", [(FBvec, 2); (FInt, 1)]); ("BOOLVECTOR.OR", [(FBvec, 2); (FInt, 1)]);
+    ("BOOLVECTOR.NOT", [(FBvec, 1); (FInt, 1)]);
+    ("BOOLVECTOR.COUNT", [(FBvec, 1)]); ("BOOLVECTOR.EQUAL", [(FBvec, 2)]); ("BOOLVECTOR.ID", []);
+    ("BOOLVECTOR.LENGTH", [(FBvec, 1)]); ("BOOLVECTOR.ONES", [(FInt, 1)]); ("BOOLVECTOR.ZEROS", [(FInt, 1)]);
+    ("BOOLVECTOR.ROTATE", [(FBool, 1); (FBvec, 1)]); ("BOOLVECTOR.SORT*ASC", [(FBvec, 1)]); ("BOOLVECTOR.SORT*DESC", [(FBvec, 1)]) ].
+
+Definition nd_ivec : list (string * need) :=
+  nd_vec_family "INTVECTOR" FIvec ++
+  [ ("INTVECTOR.STACKDEPTH", []); ("INTVECTOR.DEFINE", [(FName, 1); (FIvec, 1)]);
+    ("INTVECTOR.APPEND", [(FIvec, 1); (FInt, 1)]); ("INTVECTOR.BOOLINDEX", [(FBvec, 1)]);
+    ("INTVECTOR.GET", [(FInt, 1); (FIvec, 1)]); ("INTVECTOR.SET", [(FInt, 2); (FIvec, 1)]);
+    ("INTVECTOR.+", [(FIvec, 2); (FInt, 1)]); ("INTVECTOR.-", [(FIvec, 2); (FInt, 1)]);
+    ("INTVECTOR.CONTAINS", [(FInt, 1); (FIvec, 1)]); ("INTVECTOR.EMPTY", []);
+    ("INTVECTOR.EQUAL", [(FIvec, 2)]); ("INTVECTOR.FROMINT", [(FInt, 1)]); ("INTVECTOR.ID", []);
+    ("INTVECTOR.ONES", [(FInt, 1)]); ("INTVECTOR.ZEROS", [(FInt, 1)]); ("INTVECTOR.MEAN", [(FIvec, 1)]);
+    ("INTVECTOR.LENGTH", [(FIvec, 1)]); ("INTVECTOR.LOOP", [(FIvec, 1); (FExec, 1)]);
+    ("INTVECTOR.REMOVE", [(FIvec, 1); (FInt, 1)]);
+    ("INTVECTOR.ROTATE", [(FInt, 1); (FIvec, 1)]); ("INTVECTOR.SORT*ASC", [(FIvec, 1)]); ("INTVECTOR.SORT*DESC", [(FIvec, 1)]);
+    (* EXCEPTION (documented: "If no INTVECTOR item exists, a new one will be created"): on an empty
+       INTVECTOR stack an empty vector is pushed even without an INTEGER; recorded as needing nothing *)
+    ("INTVECTOR.SET*INSERT", []);
+    ("INTVECTOR.SUM", [(FIvec, 1)]) ].
+
+Definition nd_fvec : list (string * need) :=
+  nd_vec_family "FLOATVECTOR" FFvec ++
+  [ ("FLOATVECTOR.STACKDEPTH", []); ("FLOATVECTOR.DEFINE", [(FName, 1); (FFvec, 1)]);
+    ("FLOATVECTOR.GET", [(FInt, 1); (FFvec, 1)]); ("FLOATVECTOR.SET", [(FInt, 1); (FFloat, 1); (FFvec, 1)]);
+    ("FLOATVECTOR.+", [(FFvec, 2); (FInt, 1)]); ("FLOATVECTOR.-", [(FFvec, 2); (FInt, 1)]);
+    ("FLOATVECTOR.*", [(FFvec, 2); (FInt, 1)]); ("FLOATVECTOR./", [(FFvec, 2); (FInt, 1)]);
+    ("FLOATVECTOR.*SCALAR", [(FFloat, 1); (FFvec, 1)]); ("FLOATVECTOR.APPEND", [(FFvec, 1); (FFloat, 1)]);
+    ("FLOATVECTOR.EMPTY", []); ("FLOATVECTOR.EQUAL", [(FFvec, 2)]); ("FLOATVECTOR.ID", []);
+    ("FLOATVECTOR.LENGTH", [(FFvec, 1)]); ("FLOATVECTOR.MEAN", [(FFvec, 1)]);
+    ("FLOATVECTOR.ONES", [(FInt, 1)]); ("FLOATVECTOR.ZEROS", [(FInt, 1)]);
+    ("FLOATVECTOR.ROTATE", [(FFloat, 1); (FFvec, 1)]); ("FLOATVECTOR.SINE", [(FFloat, 3); (FInt, 1)]);
+    ("FLOATVECTOR.SORT*ASC", [(FFvec, 1)]); ("FLOATVECTOR.SORT*DESC", [(FFvec, 1)]); ("FLOATVECTOR.SUM", [(FFvec, 1)]) ].
+
+Definition nd_list : list (string * need) :=
+  [ ("LIST.ADD", [(FIvec, 1)]); ("LIST.REMOVE", [(FInt, 1); (FCode, 1)]); ("LIST.GET", [(FInt, 1); (FCode, 1)]);
+    (* without a record to replace, the items taken for the new record are lost, nothing is pushed *)
+    ("LIST.SET", [(FInt, 1); (FIvec, 1); (FCode, 1)]); ("LIST.BVAL", [(FInt, 2); (FCode, 1)]); ("LIST.IVAL", [(FInt, 2); (FCode, 1)]);
+    ("LIST.FVAL", [(FInt, 2); (FCode, 1)]) ].
+
+Definition nd_io : list (string * need) :=
+  [ ("INPUT.AVAILABLE", []); ("INPUT.GET", [(FInt, 1); (FInput, 1)]); ("INPUT.NEXT", [(FInput, 1)]);
+    ("INPUT.READ", [(FInput, 1)]); ("INPUT.STACKDEPTH", []);
+    ("OUTPUT.FLUSH", []); ("OUTPUT.WRITE", [(FBvec, 1); (FIvec, 1)]); ("OUTPUT.STACKDEPTH", []) ].
+
+Definition nd_graph : list (string * need) :=
+  [ ("GRAPH.ADD", []); ("GRAPH.DUP", [(FGraph, 1)]); ("GRAPH.NODE*ADD", [(FGraph, 1); (FInt, 1)]);
+    ("GRAPH.NODE*GETSTATE", [(FGraph, 1); (FInt, 1)]); ("GRAPH.NODE*HISTORY", [(FInt, 2); (FGraph, 1)]);
+    ("GRAPH.NODE*SETSTATE", [(FGraph, 1); (FInt, 2)]);
+    ("GRAPH.NODE*NEIGHBORS", [(FGraph, 1); (FIvec, 1); (FInt, 1)]);
+    ("GRAPH.NODE*PREDECESSORS", [(FGraph, 1); (FIvec, 1); (FInt, 1)]);
+    ("GRAPH.NODE*SUCCESSORS", [(FGraph, 1); (FIvec, 1); (FInt, 1)]);
+    ("GRAPH.NODE*STATESWITCH", [(FGraph, 1); (FIvec, 1); (FBvec, 1); (FInt, 2)]);
+    ("GRAPH.NODES", [(FGraph, 1); (FIvec, 1)]); ("GRAPH.NODES*HISTORY", [(FInt, 1); (FGraph, 1); (FIvec, 1)]);
+    ("GRAPH.STACKDEPTH", []); ("GRAPH.PRINT", [(FGraph, 1)]); ("GRAPH.PRINT*DIFF", [(FGraph, 2)]);
+    ("GRAPH.EDGE*ADD", [(FGraph, 1); (FFloat, 1); (FInt, 2)]); ("GRAPH.EDGE*HISTORY", [(FInt, 3); (FGraph, 1)]);
+    ("GRAPH.EDGE*GETWEIGHT", [(FGraph, 1); (FInt, 2)]); ("GRAPH.EDGE*SETWEIGHT", [(FGraph, 1); (FFloat, 1); (FInt, 2)]) ].
+
+Definition nd_nbr : list (string * need) :=
+  [ ("LIST.NEIGHBOR*IDS", [(FInt, 3); (FFloat, 1)]); ("LIST.NEIGHBOR*BVALS", [(FInt, 4); (FFloat, 1)]);
+    ("LIST.NEIGHBOR*IVALS", [(FInt, 4); (FFloat, 1)]); ("LIST.NEIGHBOR*FVALS", [(FInt, 4); (FFloat, 1)]) ].
+
+Definition nd_rand : list (string * need) :=
+  [ ("BOOLEAN.RAND", []); ("INTEGER.RAND", []); ("FLOAT.RAND", []); ("CODE.RAND", [(FInt, 1)]); ("NAME.RAND", []);
+    (* EXCEPTION (documented, random.rs: "Selects a random item from the name bindings or a new name if
+       there is not name binding yet"): without any binding a fresh name is pushed; recorded as needing nothing *)
+    ("NAME.RANDBOUNDNAME", []);
+    ("BOOLVECTOR.RAND", [(FInt, 1); (FFloat, 1)]); ("INTVECTOR.RAND", [(FInt, 3)]);
+    ("FLOATVECTOR.RAND", [(FInt, 1); (FFloat, 2)]) ].
+
+Definition nd_base : list (string * need) :=
+  nd_core ++ nd_bvec ++ nd_ivec ++ nd_fvec ++ nd_list ++ nd_io ++ nd_graph ++ nd_nbr.
+Definition nd_all : list (string * need) := nd_base ++ nd_rand.
+
+Fixpoint nd_lookup (t : list (string * need)) (n : string) : option need :=
+  match t with
+  | [] => None
+  | (k, m) :: r => if String.eqb n k then Some m else nd_lookup r n
+  end.
+
+Definition needs (n : string) : need := match nd_lookup nd_all n with Some nd => nd | None => [] end.
+(* some needed operand is missing *)
+Definition lacking (n : string) (s : state) : bool := lacking_in (needs n) s.
+
+(* ---- guards: all operands are there, but the condition on their VALUES under which the
+   instruction applies does not hold.  [gd_all] gives, per instruction NAME, the test "the guard
+   fails" (written with the comparison the doc comment states).  An instruction whose guard fails
+   only pops, exactly as when an operand is missing. ---- *)
+Local Open Scope Z_scope.
+Section Guards.
+  Context {FO : FloatOps}.
+  Definition top_int (P : Z -> bool) (s : state) : bool := match st_int s with z :: _ => P z | [] => false end.
+  Definition second_int (P : Z -> bool) (s : state) : bool := match st_int s with _ :: z :: _ => P z | _ => false end.
+  Definition top_float (P : f32 -> bool) (s : state) : bool := match st_float s with x :: _ => P x | [] => false end.
+
+  Fixpoint zero_over (top : list f32) (i off size : Z) : bool :=
+    match top with
+    | [] => false
+    | t :: r => (feq t f_zero && (0 <=? i + off) && (i + off <? size)) || zero_over r (i + 1) off size
+    end.
+
+  Definition gd_all : list (string * (state -> bool)) :=
+    [ (* documented: "If the top item is zero this acts as a NOOP" (the two operands are consumed) *)
+      ("INTEGER./", top_int (fun z => z =? 0)); ("INTEGER.%", top_int (fun z => z =? 0));
+      ("FLOAT./", top_float (fun x => feq x f_zero)); ("FLOAT.%", top_float (fun x => feq x f_zero));
+      (* documented: "Increases the current value by one if current < destination. Otherwise ... NOOP" *)
+      ("INDEX.INCREASE", fun s => match st_index s with (cur, dest) :: _ => negb (cur <? dest) | [] => false end);
+      (* documented: "If the length is < 0 no vector is pushed" *)
+      ("FLOATVECTOR.SINE", top_int (fun n => negb (0 <=? n)));
+      (* guards of the code on which the doc comments are silent: a size that is not positive, *)
+      ("BOOLVECTOR.ONES", top_int (fun n => negb (0 <? n))); ("BOOLVECTOR.ZEROS", top_int (fun n => negb (0 <? n)));
+      ("INTVECTOR.ONES", top_int (fun n => negb (0 <? n))); ("INTVECTOR.ZEROS", top_int (fun n => negb (0 <? n)));
+      ("FLOATVECTOR.ONES", top_int (fun n => negb (0 <? n))); ("FLOATVECTOR.ZEROS", top_int (fun n => negb (0 <? n)));
+      (* a name without a definition, a negative argument count, *)
+      ("CODE.DEFINITION", fun s => match st_name s with
+                                   | n :: _ => match bind_get (st_bind s) n with None => true | Some _ => false end
+                                   | [] => false end);
+      ("EXEC.CMD", fun s => match st_int s with        (* ... or fewer than n + 1 NAMEs for n arguments *)
+                            | n :: _ => negb (-1 <? n) || negb (n + 1 <=? zlen (st_name s))
+                            | [] => false end);
+      (* a node id that is not positive, a negative GRAPH stack position *)
+      ("GRAPH.NODE*GETSTATE", top_int (fun id => negb (0 <? id)));
+      ("GRAPH.NODE*SETSTATE", second_int (fun id => negb (0 <? id)));
+      ("GRAPH.NODE*NEIGHBORS", top_int (fun id => negb (0 <? id)));
+      ("GRAPH.NODE*PREDECESSORS", top_int (fun id => negb (0 <? id)));
+      ("GRAPH.NODE*SUCCESSORS", top_int (fun id => negb (0 <? id)));
+      ("GRAPH.NODES*HISTORY", top_int (fun pos => negb (0 <=? pos)));
+      ("GRAPH.NODE*HISTORY", top_int (fun pos => negb (0 <=? pos)));
+      ("GRAPH.EDGE*HISTORY", top_int (fun pos => negb (0 <=? pos)));
+      (* documented (vector.rs): "If the size is <0 or the sparcity not in [0,1] this acts as a NOOP",
+         "If the size is <0 or max < min ...", "If size < 0 or standard deviation < 0 ..." (the operands are consumed);
+         the code also refuses max = min and a deviation that is not finite *)
+      ("BOOLVECTOR.RAND", fun s => match st_int s, st_float s with
+                                   | size :: _, sp :: _ => (size <? 0) || f_is_nan sp || flt sp f_zero || fgt sp f_one
+                                   | _, _ => false end);
+      ("INTVECTOR.RAND", fun s => match st_int s with
+                                  | size :: hi :: lo :: _ => (size <? 0) || (hi <=? lo)
+                                  | _ => false end);
+      ("FLOATVECTOR.RAND", fun s => match st_int s, st_float s with
+                                    | size :: _, _ :: sd :: _ => (size <? 0) || negb (f_is_finite sd) || flt sd f_zero
+                                    | _, _ => false end);
+      (* documented: "If at least one divisor is zero the instruction acts as NOOP" (both vectors and the offset
+         are consumed): element i of the top vector is zero and lies over position i + offset of the second *)
+      ("FLOATVECTOR./", fun s => match st_fvec s, st_int s with
+                                 | top :: second :: _, off :: _ => zero_over top 0 off (zlen second)
+                                 | _, _ => false end) ].
+
+  Fixpoint gd_lookup (t : list (string * (state -> bool))) (n : string) : option (state -> bool) :=
+    match t with
+    | [] => None
+    | (k, g) :: r => if String.eqb n k then Some g else gd_lookup r n
+    end.
+  Definition guard_fails (n : string) (s : state) : bool :=
+    match gd_lookup gd_all n with Some g => g s | None => false end.
+  (* the instruction does not apply *)
+  Definition unfired (n : string) (s : state) : bool := lacking n s || guard_fails n s.
+End Guards.
